@@ -473,9 +473,13 @@ func coordinate() int {
 	if len(agg.Samples) == 0 {
 		cov["samples"] = []interface{}{"no non-trivial case was produced"}
 	}
+	assumptions := append([]string{
+		"the harness (spec->API builder, generators, oracle code under /verif/harness) is correct",
+		"held on the executions counted here, nothing is claimed for inputs/schedules this run did not produce",
+	}, c.Assumptions...)
 	ev := map[string]interface{}{
 		"property_id": c.ID, "tier": tier, "seed": int64(seed), "level": "exploration", "coverage": cov,
-		"assumptions": c.Assumptions, "wall_s": wall, "violations": realViol + extra,
+		"assumptions": assumptions, "wall_s": wall, "violations": realViol + extra,
 		"known_findings_seen": knownSeen, "technique": c.Technique,
 	}
 	os.MkdirAll(filepath.Join(verif, "evidence"), 0o755)
